@@ -37,3 +37,11 @@ contract("codemodder.codemods.libcst_transformer.LibcstResultTransformer.replace
                   ("every argument whose keyword is not named in args_info is kept, identical and in place",
                    "all(implies(not any(" + _KW.format(a="original_node.args[i]", n="y.name") + " for y in old(args_info)), result[i] == original_node.args[i])"
                    " for i in range(len(original_node.args)))")])
+
+# ---- https-connection: the tenth POSITIONAL argument is the only one re-labelled --------------------------------------------------
+contract("core_codemods.https_connection.HTTPSConnectionModifier.count_positional_args", props=["C16"],
+         params={"self": "Opaque", "arglist": "list[Opaque]"}, returns="int",
+         invariants={0: ["all(not arglist[j].keyword for j in range(k))"]},
+         ensures=[("the result is the length of the LEADING run of keyword-less arguments (star-args after a keyword do not count)",
+                   "0 <= result and result <= len(arglist) and all(not arglist[j].keyword for j in range(result))"
+                   " and (result == len(arglist) or bool(arglist[result].keyword))")])
